@@ -343,7 +343,9 @@ func (f *Func) failureReturnsError(call *ast.CallExpr) bool {
 
 // writtenBetween: some assignment to obj other than the one at vertex from lies on a path from → to.
 func (g *Graph) writtenBetween(obj types.Object, from, to int) bool {
-	after := g.ReachableFrom(from)
+	// paths from → write → to that do not come back through either end (in a loop everything is "between" everything
+	// otherwise: the next iteration's writes are not between this iteration's call and its test)
+	after := g.ReachableFromAvoiding(from, to)
 	for _, w := range Writes(g.F.Body, false) {
 		if g.F.ObjOf(w.LHS) != obj {
 			continue
@@ -352,7 +354,7 @@ func (g *Graph) writtenBetween(obj types.Object, from, to int) bool {
 		if wv < 0 || wv == from || !after[wv] {
 			continue
 		}
-		if wv == to || g.ReachableFrom(wv)[to] {
+		if wv == to || g.ReachableFromAvoiding(wv, from)[to] {
 			return true
 		}
 	}
